@@ -94,7 +94,7 @@ def required_cells(tier):
            "outcome:open-fails": 1, "outcome:warns": 1,
            "outcome:silent-complete": 1,
            "variant:preexisting": 1, "variant:rank3": 1,
-           "variant:transform": 1, "variant:unique": 1,
+           "variant:transform": 1, "variant:unique": 1, "variant:direct": 1,
            "writers_died_as_intended": 50,
            "matrix:write:existing": 3, "matrix:write:missing": 3,
            "matrix:overwrite:existing": 3, "matrix:overwrite:missing": 3,
@@ -137,6 +137,7 @@ def _variants(tier, seed):
     add(2, workload="pttempo", n=n_a, coupling="z")
     add(3, workload="pttempo", n=n_b, coupling="x", unique=True, api="class",
         named=True)
+    add(10, workload="export", n=n_a, dt=0.1, direct=True)
     if tier == "thorough":
         add(4, workload="export", n=1, dt=0.05, d=3)
         add(5, workload="export", n=5, rank3=True, dt=0.2, named=True)
@@ -527,7 +528,7 @@ def _run_crash(case, variant, level, wl, tmp):
                                "variant": variant}})
     cells.append("level:" + level)
     for flag in ("preexisting", "rank3", "transform", "unique", "large",
-                 "named"):
+                 "named", "direct"):
         if variant.get(flag):
             cells.append("variant:" + flag)
     outcome_set = sorted({r[4] for r in rows} | {r[5] for r in rows})
